@@ -72,6 +72,8 @@ class _Loader(importlib.abc.Loader):
             raise RuntimeError('fixture module fails while being imported')
         if beh == 'import-importerror':
             raise ImportError('fixture module has a missing dependency')
+        if beh == 'import-missing-dependency':
+            importlib.import_module('fixture_dependency_that_is_not_installed')
 
         def parseUDToJson(subtype, version, data):
             b = bytes(data)
